@@ -12,6 +12,7 @@ import Driver.Cl
 import Driver.Rs
 import Driver.Sb
 import Driver.Cmd
+import Driver.Bl
 /-!
 # Line-protocol driver
 
@@ -144,6 +145,7 @@ def step (st : St) (line : String) : St × String :=
     else if h.startsWith "rs." || h.startsWith "zc." then let r := DrvRs.rsStep st.zc ws; ({ st with zc := r.1 }, r.2)
     else if h.startsWith "sb." || h.startsWith "va." then (st, DrvSb.sbStep ws)
     else if h.startsWith "cmd." then (st, DrvCmd.cmdStep ws)
+    else if h.startsWith "ble." then (st, DrvBl.blStep ws)
     else (st, "bad-op")
 
 partial def loop (h : IO.FS.Stream) (out : IO.FS.Stream) (st : St) : IO Unit := do
